@@ -23,6 +23,9 @@ type Hooks interface {
 	TryAcquire(m uintptr, read bool, site string) bool
 	// Release tells the simulator that the lock has been released.
 	Release(m uintptr, read bool, site string)
+	// Select decides which of n communication clauses of a select statement
+	// is polled first (the clauses are polled in rotation from that index).
+	Select(site string, n int) int
 }
 
 // H is set by the harness before any library code runs and never changed
@@ -34,6 +37,14 @@ func Yield(site string) {
 	if h := H; h != nil {
 		h.Yield(site)
 	}
+}
+
+// Select is called in front of a select statement with n >= 2 communication clauses.
+func Select(site string, n int) int {
+	if h := H; h != nil {
+		return h.Select(site, n)
+	}
+	return 0
 }
 
 // Go replaces a go statement.
